@@ -18,7 +18,7 @@ func init() {
 		ID:    "R-SMALL",
 		Doc:   "single-site obligations: thrift Reset recomputes protocol flags like the constructor; the seen-bit of a decoded field is set on every path that consumes it; keyset lookups are confirmed by a length comparison; HTML key fragments are always computed; slice growth is geometric; every callback parameter of the skippers is used; trailing-data tests dominate success returns; varint overflow constants; sort-before-delta; number-kind precedence; identities of base64/time/endianness callees",
 		Props: []string{"C01", "C02", "C03", "C04", "C07", "C08", "C12", "C13", "C14", "C16", "C19"},
-		Min:   map[string]int{"C01": 2, "C02": 3, "C03": 1, "C04": 4, "C07": 3, "C08": 3, "C12": 2, "C13": 3, "C14": 3, "C16": 1, "C19": 2},
+		Min:   map[string]int{"C01": 2, "C02": 3, "C03": 1, "C04": 4, "C07": 3, "C08": 4, "C12": 2, "C13": 3, "C14": 3, "C16": 1, "C19": 2},
 		Run:   runSmall,
 	})
 }
@@ -40,6 +40,7 @@ func runSmall(c *core.Ctx) []core.Obligation {
 	smallDeltaBase(c, b)
 	smallBitOrZeroMask(c, b)
 	smallRawVarintByte(c, b)
+	smallSkipCoalescedBool(c, b)
 	return b.out
 }
 
@@ -889,4 +890,84 @@ func smallRawVarintByte(c *core.Ctx, b *ob) {
 	if n == 0 {
 		b.addP(props, core.Discharged, "raw-varint-byte:none", "proto", "no integer is written as a raw byte outside encodeVarint: every length and tag goes through the varint encoder")
 	}
+}
+
+// S16 — thrift: a protocol that coalesces boolean fields carries their value in the field header;
+// the skipper of undeclared fields must, like the decoder of declared ones, consume nothing for
+// TRUE/FALSE fields under that feature.
+func smallSkipCoalescedBool(c *core.Ctx, b *ob) {
+	props := []string{"C08", "C04"}
+	key := "skip:coalesced-bool"
+	fn := c.Lookup("thrift.skipField")
+	if fn == nil {
+		b.addP(props, core.Undecided, key, "-", "thrift.skipField not found")
+		return
+	}
+	trueV, _ := thriftConst(c, "TRUE")
+	falseV, _ := thriftConst(c, "FALSE")
+	feat, _ := thriftFeatureConst(c, "CoalesceBoolFields")
+	// a return without a read, on a path where the type is TRUE/FALSE and the feature bit is tested
+	ok := false
+	for _, r := range returnsOf(fn) {
+		if len(r.Results) != 1 || !isNilConst(r.Results[0]) {
+			continue
+		}
+		typed, featured := false, false
+		for _, cond := range trueAtoms(r.Block(), 0) {
+			if bo, isB := cond.(*ssa.BinOp); isB {
+				if k, isK := constInt(bo.Y); isK && bo.Op == token.EQL && (k == trueV || k == falseV) {
+					typed = true
+				}
+				if bo.Op == token.NEQ {
+					if and, isAnd := bo.X.(*ssa.BinOp); isAnd && and.Op == token.AND {
+						if k, isK := constInt(and.Y); isK && k == feat {
+							featured = true
+						}
+					}
+				}
+			}
+		}
+		// the type test may be a disjunction (TRUE || FALSE): accept a dominating block whose
+		// condition chain mentions both constants
+		if !typed {
+			for _, e := range dominatingEdges(r.Block()) {
+				if bo, isB := e.ifi.Cond.(*ssa.BinOp); isB && bo.Op == token.EQL {
+					if k, isK := constInt(bo.Y); isK && (k == trueV || k == falseV) {
+						typed = true
+					}
+				}
+			}
+		}
+		if featured && (typed || mentionsBoolTypes(fn, trueV, falseV)) {
+			ok = true
+		}
+	}
+	if ok {
+		b.addP(props, core.Discharged, key, c.FuncPos(fn), "TRUE/FALSE fields are skipped without a read when the protocol coalesces booleans")
+	} else {
+		b.addP(props, core.Violation, key, c.FuncPos(fn), "skipField reads a value for every field type: in a protocol that carries boolean field values in the field header (compact) an undeclared bool field makes the skipper swallow the next byte of the message, and every field after it is misread")
+	}
+}
+
+func mentionsBoolTypes(fn *ssa.Function, t, f int64) bool {
+	seenT, seenF := false, false
+	for _, blk := range fn.Blocks {
+		for _, in := range blk.Instrs {
+			if bo, ok := in.(*ssa.BinOp); ok && bo.Op == token.EQL {
+				if k, isK := constInt(bo.Y); isK {
+					if k == t {
+						seenT = true
+					}
+					if k == f {
+						seenF = true
+					}
+				}
+			}
+		}
+	}
+	return seenT && seenF
+}
+
+func thriftFeatureConst(c *core.Ctx, name string) (int64, bool) {
+	return thriftConst(c, name)
 }
